@@ -13,6 +13,7 @@ use delaunay::core::triangulation::{TopologyGuarantee, ValidationPolicy};
 use delaunay::core::triangulation_data_structure::{CellKey, VertexKey};
 use delaunay::core::util::delaunay_validation::find_delaunay_violations;
 use delaunay::core::vertex::Vertex;
+use delaunay::geometry::traits::coordinate::Coordinate;
 use delaunay::triangulation::flips::BistellarFlips;
 use serde_json::{Value, json};
 use std::num::NonZeroUsize;
@@ -277,6 +278,7 @@ impl FlipArg {
 }
 
 pub struct FlipOut {
+    pub err: String,
     pub ok: bool,
     pub panicked: bool,
     pub line: usize,
@@ -349,6 +351,7 @@ pub fn op_flip<K: Kern<D>, const D: usize>(
                 "fkind": format!("{:?}", info.kind), "dir": format!("{:?}", info.direction)});
             let line = tr.emit("Flip", obj, args, res, Some(post), false);
             FlipOut {
+                err: String::new(),
                 ok: true,
                 panicked: false,
                 line,
@@ -361,11 +364,11 @@ pub fn op_flip<K: Kern<D>, const D: usize>(
             let post = tr.project(dt);
             let res = json!({"kind":"Err","err":variant(&e),"removed":[],"created":[],"rface":[],"iface":[]});
             let line = tr.emit("Flip", obj, args, res, Some(post), false);
-            FlipOut { ok: false, panicked: false, line, iface: vec![], rface: vec![], new_cells: vec![] }
+            FlipOut { err: variant(&e), ok: false, panicked: false, line, iface: vec![], rface: vec![], new_cells: vec![] }
         }
         Guarded::Panicked(msg) => {
             let line = tr.emit("Flip", obj, args, json!({"kind":"Panic","msg":msg}), None, true);
-            FlipOut { ok: false, panicked: true, line, iface: vec![], rface: vec![], new_cells: vec![] }
+            FlipOut { err: "Panic".into(), ok: false, panicked: true, line, iface: vec![], rface: vec![], new_cells: vec![] }
         }
     }
 }
@@ -506,6 +509,53 @@ pub fn op_construct_toroidal<K: Kern<D>, const D: usize>(
         Guarded::Panicked(msg) => {
             tr.emit("Construct", obj, args, json!({"kind":"Panic","msg":msg}), Some(dead_state()), true);
             None
+        }
+    }
+}
+
+/// C09 probe: insert a fresh-uuid vertex at (or within / beyond the duplicate tolerance of) the exact
+/// STORED coordinates of an existing vertex - also for vertices the library perturbed off the lattice.
+/// kind: "copy" (bit-identical), "nearcopy" (+2^-36 on axis 0, inside 1e-10), "farcopy" (+2^-30: outside)
+pub fn op_insert_copy<K: Kern<D>, const D: usize>(tr: &mut Tracer, obj: usize, dt: &mut Dt<K, D>, of: Uuid, kind: &'static str, n: u64, with_stats: bool) -> bool {
+    let Some((_, target)) = find_vertex(dt, of) else { return true };
+    let mut c = *target.point().coords();
+    // absolute offsets (the tolerance 1e-10 is absolute); only meaningful when coordinates are O(1..100)
+    match kind {
+        "nearcopy" => c[0] += 2f64.powi(-36),
+        "farcopy" => c[0] += 2f64.powi(-30),
+        _ => {}
+    }
+    if c[0] == target.point().coords()[0] && kind != "copy" {
+        return true; // offset lost to rounding at this magnitude: not a meaningful probe
+    }
+    let (m, _, _, _) = tr.coord_proj(target.point().coords());
+    let vert = Vertex::<f64, VData, D>::new_with_uuid(delaunay::geometry::point::Point::new(c), mk_uuid(n), Some(31));
+    let args = json!({"u": tr.vid(mk_uuid(n)), "m": m, "data": 31, "cls": kind, "of": tr.vid(of), "stats": with_stats});
+    let uuid = mk_uuid(n);
+    let r = tr.guard("insert(copy probe)", || -> (String, String, Option<VertexKey>, i64) {
+        if with_stats {
+            match dt.insert_with_statistics(vert) {
+                Ok((InsertionOutcome::Inserted { vertex_key, .. }, st)) => ("Inserted".into(), String::new(), Some(vertex_key), st.attempts as i64),
+                Ok((InsertionOutcome::Skipped { error }, st)) => ("Skipped".into(), variant(&error), None, st.attempts as i64),
+                Err(e) => ("Err".into(), variant(&e), None, -1),
+            }
+        } else {
+            match dt.insert(vert) {
+                Ok(k) => ("Inserted".into(), String::new(), Some(k), -1),
+                Err(e) => ("Err".into(), variant(&e), None, -1),
+            }
+        }
+    });
+    match r {
+        Guarded::Done((kind2, err, key, attempts)) => {
+            let key_ok = key.is_some_and(|k| dt.tds().get_vertex_by_key(k).is_some_and(|x| x.uuid() == uuid));
+            let post = tr.project(dt);
+            tr.emit("InsertCopy", obj, args, json!({"kind":kind2,"err":err,"key_ok":key_ok,"attempts":attempts}), Some(post), false);
+            true
+        }
+        Guarded::Panicked(msg) => {
+            tr.emit("InsertCopy", obj, args, json!({"kind":"Panic","msg":msg}), None, true);
+            false
         }
     }
 }
